@@ -5,18 +5,18 @@ Crash / Fault / FormatterRaises; the property is the outcome predicate OutcomeOK
 invariant Atomic) and specs/AtomicWriteResume.tla (apply_to interrupted and re-run).
 
 TLC runs
-  * MC_AtomicWrite_<tier>   the transcribed current protocol explored completely, every
-                            transition emitted with the verdict of OutcomeOK: the terminal
-                            states with verdict FALSE are the *predicted* counterexamples;
-  * MC_AtomicWrite_cx       the same model with INVARIANT Atomic: TLC must report a violation
-                            (the design-level counterexample);
-  * MC_AtomicWrite_intended replace + cleanup on every failure: Atomic holds;
+  * MC_AtomicWrite_quick    the transcribed CURRENT protocol (src.replace + cleanup on every failure) explored
+                            completely with INVARIANT Atomic, every transition emitted with the verdict of OutcomeOK;
+  * MC_AtomicWrite_thorough (thorough) the same for the protocols before the C19 repairs and the partial repairs:
+                            which change removes which counterexample;
+  * MC_AtomicWrite_cx       self-test of the property on the spec's historic configurations: Atomic must be violated
+                            (the property is not vacuous; independent of the code);
   * MC_AtomicWrite_judge    emits OutcomeOK over its whole domain (the verdict table).
 spec -> code: every real write case (writer x file type x destination present/absent x
   normal / formatter failure) is dry-run in a child to discover ALL its call boundaries, then
   re-run once per boundary and mode (kill: os._exit before the call; fault: the call raises
   OSError).  What is left on disk is projected to (dest, tmp) and judged by the verdict table.
-  Predicted counterexamples must be reproduced by the real code.
+  Terminal states of the transcribed model that the property rejects (none since the repairs) must be reproduced.
 code -> spec: every child's boundary log (calls, states seen before each call, ending) is
   validated by Trace_AtomicWrite as a behaviour of the configuration that transcribes the writer.
 Resume clause: resume_C19.
@@ -56,13 +56,13 @@ def run_models(run: Run, scratch: Path):
         except Exception as ex:  # noqa: BLE001
             out[name] = ex
 
-    tier_cfg = f"MC_AtomicWrite_{run.tier}.cfg"
     ths = [
-        threading.Thread(target=go, args=("model", tier_cfg), kwargs={"workers": TLC_WORKERS}),
+        threading.Thread(target=go, args=("model", "MC_AtomicWrite_quick.cfg"), kwargs={"workers": TLC_WORKERS}),
         threading.Thread(target=go, args=("cx", "MC_AtomicWrite_cx.cfg"), kwargs={"must_pass": False}),
-        threading.Thread(target=go, args=("intended", "MC_AtomicWrite_intended.cfg")),
         threading.Thread(target=go, args=("judge", "MC_AtomicWrite_judge.cfg")),
     ]
+    if run.tier == "thorough":
+        ths.append(threading.Thread(target=go, args=("history", "MC_AtomicWrite_thorough.cfg")))
     for t in ths:
         t.start()
     for t in ths:
@@ -70,11 +70,12 @@ def run_models(run: Run, scratch: Path):
     for name, v in out.items():
         if isinstance(v, Exception):
             raise v
-    for name in ("model", "intended", "cx"):
-        run.add_tlc(out[name][0])
+    for name in ("model", "history", "cx"):
+        if name in out:
+            run.add_tlc(out[name][0])
     cx = out["cx"][0]
     if not (cx.violated and "Invariant Atomic is violated" in cx.out):
-        raise RuntimeError("TLC did not report the expected design-level counterexample on the transcribed protocol:\n" + cx.out[-1500:])
+        raise RuntimeError("spec self-test: Atomic does not reject the historic (pre-repair) protocols of AtomicWrite.tla:\n" + cx.out[-1500:])
     table = {}
     for r in out["judge"][1]:
         if r.get("act") == "Judge":
@@ -82,7 +83,14 @@ def run_models(run: Run, scratch: Path):
     if len(table) != 2 * 3 * 9 * 4 * 4:
         raise RuntimeError(f"verdict table incomplete: {len(table)} rows")
     cxtrace = re.findall(r"State \d+: <(\w+)", cx.out)
-    run.note("tlc_counterexample_on_current_protocol", cxtrace)
+    run.note("tlc_counterexample_on_historic_protocol", cxtrace)
+    if "history" in out:
+        hist = {}
+        for r in out["history"][1]:
+            t = r["to"]
+            if t["how"] != "running" and not r["ok"] and not (t["how"] == "crashed" and t["fcall"] != "none"):
+                hist.setdefault(t["cfg"], set()).add((t["pre"], t["how"], t["fcall"], t["dest"], D.coarse(t["tmp"])))
+        run.note("rejected_terminal_states_per_configuration", {k: len(v) for k, v in sorted(hist.items())})
     run.note(
         "tlc_runs",
         {n: {"states": out[n][0].distinct, "transitions": out[n][0].generated, "wall_s": round(out[n][0].wall, 1)} for n in out},
